@@ -1858,20 +1858,15 @@ theorem growthC12_run {P : Sketch → Prop} (L : SketchLaws P) {p : Params} (hq 
         exact ih rest hlr _ (step_inv L hq hsm hi op)
       · rfl
 
-/-- **C12 on traces** (single-threaded cache): the oracle accepts every trace of the model. -/
-theorem oracleC12_trace {P : Sketch → Prop} (L : SketchLaws P) {p : Params} (hq : NoQuirks p)
-    (hsm : SmallSketch p) (h : List Op) :
-    oracleC12 .unsync p.cap p.ttl p.tti p.weigh Gen.UNSYNC_EVICTION_BATCH_SIZE (trace p h) = true := by
-  unfold oracleC12 trace
-  cases hcap : p.cap with
-  | none => rfl
-  | some cap =>
-    dsimp only
-    rw [Bool.and_eq_true]
-    exact ⟨admitC13_run L hq hsm hcap h.length h (Nat.le_refl _) {} (init_inv L p)
-        (fun n hn => by simp at hn),
-      growthC12_run L hq hsm hcap h.length h (Nat.le_refl _) {} (init_inv L p)⟩
-
+/-- The admission and growth parts of the C12 oracle on model traces (the recency part, and the
+oracle itself, are in `Lemmas/UnsyncRecency.lean`). -/
+theorem admit_growth_trace {P : Sketch → Prop} (L : SketchLaws P) {p : Params} (hq : NoQuirks p)
+    (hsm : SmallSketch p) {cap : Nat} (hcap : p.cap = some cap) (h : List Op) :
+    admitC13 cap p.ttl p.tti p.weigh (trace p h) = true ∧
+    growthC12 cap p.ttl p.tti Gen.UNSYNC_EVICTION_BATCH_SIZE (trace p h) = true :=
+  ⟨admitC13_run L hq hsm hcap h.length h (Nat.le_refl _) {} (init_inv L p)
+      (fun n hn => by simp at hn),
+    growthC12_run L hq hsm hcap h.length h (Nat.le_refl _) {} (init_inv L p)⟩
 
 end Admit
 end Unsync
